@@ -90,7 +90,13 @@ impl StreamChunker {
             let mut slice = buf.slice();
             let concat = (&mut slice).chain(&mut reader);
 
-            let buf = arena.read_n(concat, io_block_size, NonZeroUsize::MAX)?;
+            // Ask for a block of fresh bytes on top of the carried-over ones:
+            // otherwise a small block size can't tell EOF from a full buffer.
+            let buf = arena.read_n(
+                concat,
+                initial_length.saturating_add(io_block_size),
+                NonZeroUsize::MAX,
+            )?;
             if buf.slice().len() == initial_length {
                 // No progress, must be Eof.
                 if buf.slice().is_empty() {
